@@ -72,6 +72,19 @@ CHECKS = {
              "(integrator schema is C06). Outside: first-order realisation of (da, di, dOmega) beyond the tangential identity; "
              "off-grid continuous-burn quadrature.",
         ref="DESIGN.md section 3 C17", technique=TECH),
+    "C06": dict(
+        text="KeplerNum._make_step is executed for the four methods with the derivative an uninterpreted vector field f(t, y): the "
+             "accepted step equals y + h sum b_i k_i with k_i = f(t + c_i h, y + h sum a_ij k_j) built from the class's own tableau "
+             "(decided with uninterpreted functions: catches mis-sliced stages, wrong date advance, wrong use of b*), the date "
+             "advances by h; for RKF54/DOPRI54 the error estimate is h (b - b*).k on the position part, a step is accepted iff "
+             "its norm <= tol, otherwise the next trial step is min(configured step, h (tol/(2 err))^(1/(s-1))). Every tableau "
+             "entry equals the textbook rational to 1e-15 and the textbook tableaux satisfy all rooted-tree order conditions "
+             "(1 / 8 / 17 conditions for orders 1 / 4 / 5, b* to order 4) and the row-sum conditions exactly. The real _accel with "
+             "one body at the origin is (v, -mu r/|r|^3): central, attractive, d/dt(v^2/2 - mu/|r|) = 0 and d/dt(r x v) = 0.",
+        note="Trusted: z3; the Runge-Kutta order theorem (order conditions => convergence order); textbook tableaux written in the "
+             "harness. Bounded: one step, one rejected trial. Outside: measured convergence rates, tolerance-per-step of the "
+             "adaptive methods, drift bounds over orbits, output-step independence (interpolation error).",
+        ref="DESIGN.md section 3 C06", technique=TECH + " with uninterpreted functions for the vector field; exact rational arithmetic queries for the tableau"),
     "C08": dict(
         text="AnalyticalPropagator.iter/_iter, Ephem.iter (dates / own points / re-sampling step / strict range / negative step) and "
              "the control skeleton of KeplerNum._iter (with _make_step = 'advance by exactly step' and the interpolation order bounded to "
